@@ -250,5 +250,5 @@ func runSenderInner(s *SenderScript) (bool, *vt.Finding) {
 
 func TestHTTPSenderTable(t *testing.T) {
 	E = newEnv(t)
-	vt.Run(t, cSender, vt.N(4000, 200000), genSender, runSender)
+	vt.Run(t, cSender, vt.N(4000, 150000), genSender, runSender)
 }
